@@ -22,7 +22,7 @@ type c04Case struct {
 }
 
 func sortedLines(out string) []string {
-	rows, err := ParseJSONOut(out)
+	rows, err := ParseJSONOutT(out) // times as instants: which spelling stands for a group / DISTINCT row is not fixed
 	if err != nil {
 		return []string{"<unparsable> " + out}
 	}
@@ -96,6 +96,8 @@ func c04Prop(c c04Case) ev.Outcome {
 		for _, t := range c.Tables {
 			o.Classes = append(o.Classes, "format_"+t.Format)
 		}
+		o.Classes = append(o.Classes, timeClasses(c.Tables, c.Q)...)
+		o.Classes = append(o.Classes, unusedAggClasses(c.Q)...)
 		return o, true
 	}
 	if o, ok := judge(fastRun); ok {
@@ -107,8 +109,9 @@ func c04Prop(c c04Case) ev.Outcome {
 
 func TestC04(t *testing.T) {
 	r := ev.New("C04", "exploration",
-		"widest query grammar (single-source, 2-3 way inner/LOOKUP/LEFT/RIGHT/OUTER joins whose branches are tables, filtering/projecting/DISTINCT subqueries or range(), WHERE above joins, GROUP BY above joins, projections leaving columns unused, CTEs) over generated CSV (incl. quoted multi-line fields) and JSON tables, plus queries that read no column at all (count(*) / constants); only total expressions (no division: pushdown may legitimately change which rows an erroring expression sees); "+
-			"oracle: the default optimised run and --optimize=false give the same exit status and the same multiset of rows (same sequence under ORDER BY; queries with outer joins always carry an ORDER BY over all output columns so the eager output is consolidated). "+
+		"widest query grammar (single-source, 2-3 way inner/LOOKUP/LEFT/RIGHT/OUTER joins whose branches are tables, filtering/projecting/DISTINCT subqueries or range(), WHERE above joins, GROUP BY above joins, projections leaving columns unused, CTEs, grouping subqueries whose outer query leaves 2 or more aggregates unused) over generated CSV (incl. quoted multi-line fields; "+
+			"CSV tables carry a Time column in about a third of the cases (RFC3339 cells from a small pool of instants incl. pre-1970 and year 2262, each written in one of the spellings Z/+02:00/-04:00/+05:30/-00:00/+00:00, so one instant under several spellings is frequent); Time columns are join keys (a fifth of the join cases), GROUP BY / DISTINCT / ORDER BY keys, comparison operands and arguments of count/max/array_agg) and JSON tables, plus queries that read no column at all (count(*) / constants); only total expressions (no division: pushdown may legitimately change which rows an erroring expression sees); "+
+			"oracle: the default optimised run and --optimize=false give the same exit status and the same multiset of rows, printed times compared as instants (same sequence under ORDER BY; queries with outer joins always carry an ORDER BY over all output columns so the eager output is consolidated). "+
 			"non-trivial: non-empty result and a filter/join/subquery/CTE for the optimiser to work on. distinct=(SQL, files)")
 	ev.Check(t, r, "optimised_vs_not", ev.N(6000, 100000), func(t *rapid.T) c04Case {
 		var tables []gen.TableSpec
@@ -116,7 +119,7 @@ func TestC04(t *testing.T) {
 		shape := rapid.IntRange(0, 5).Draw(t, "shape")
 		if shape == 5 {
 			// a query that reads no column of the file at all (every column is pruned by the optimiser)
-			tbl := gen.Table(t, gen.TableOpts{Name: "ta", MinRows: 0})
+			tbl := gen.Table(t, gen.TableOpts{Name: "ta", MinRows: 0, Time: true})
 			tables = []gen.TableSpec{tbl}
 			q = gen.Q{From: gen.Src{Kind: "table", Table: tbl.File(), Alias: "t"}, Grouped: true, Items: []gen.Item{{Agg: "count", Star: true, Alias: "n"}}}
 			if rapid.Bool().Draw(t, "const") {
@@ -126,16 +129,16 @@ func TestC04(t *testing.T) {
 		switch shape {
 		case 5:
 		case 0:
-			tbl := gen.Table(t, gen.TableOpts{Name: "ta", MinRows: 1})
+			tbl := gen.Table(t, gen.TableOpts{Name: "ta", MinRows: 1, Time: true})
 			tables = []gen.TableSpec{tbl}
 			q = gen.Single(t, tbl, gen.QOpts{Depth: 2, ExprDepth: 3, Expr: gen.ExprOpts{NoDiv: true}}, "q")
 		case 1:
-			tbl := gen.Table(t, gen.TableOpts{Name: "ta", MinRows: 1, MinCols: 2})
+			tbl := gen.Table(t, gen.TableOpts{Name: "ta", MinRows: 1, MinCols: 2, Time: true})
 			tables = []gen.TableSpec{tbl}
 			q = gen.GroupQuery(t, tbl, gen.GroupOpts{Expr: gen.ExprOpts{NoDiv: true}}, "q")
 		default:
 			n := rapid.IntRange(2, 3).Draw(t, "ntables")
-			tables = gen.JoinTables(t, n)
+			tables = gen.JoinTablesOpt(t, n, true)
 			q = gen.Wide(t, tables, "q")
 		}
 		// CSV cells with an embedded newline (a quoted multi-line field): records are not physical lines
